@@ -24,7 +24,10 @@ RULE = ("every shape m,l,n in 1..9 x 4 flag pairs with integer entries for matmu
         "and the 63/64/65 corners; integer data times 2^p (p to +-1000, exact equality) and real data against its power-of-two "
         "scaled copy (bit-exact equivariance); zeros facing inf/nan (IEEE class of every entry); vector / operand lengths "
         "that are multiples or divisors of the contracted dimension (must panic); inner products of lengths 8k-1, 8k, 8k+1 up "
-        "to 4097; block sizes at dimension +-1, 2^k, 2^20, 2^40. non-trivial = distinct (op, flags/method, ownership, shapes, block size)")
+        "to 4097; block sizes at dimension +-1, 2^k, 2^20, 2^40. Aliasing sessions (`ses` lines, one state per line): the same "
+        "slice / Matrix / Vector object as both operands of every entry point (sizes 1..9, 15..17, 33, random; non-symmetric, "
+        "symmetric, real), overlapping views and two shapes of one buffer, operands mutated in place between identical calls, "
+        "slots re-filled right after a drop (address reuse). non-trivial = distinct (op, flags/method, ownership, shapes, block size)")
 EXHAUSTIVE = {"quick": False, "thorough": True}
 NOT_PROVED = [
     "floating-point rounding: the theorems are exact-arithmetic statements (commutative semiring); for f64 the oracle "
@@ -423,6 +426,7 @@ def gen(rng, tier):
             lines.append(L_d(kind, meth, own, (n1, n2), val(rng, n1), val(rng, n2)))
             cover["dot_vv"] += 1
     strata(rng.fork("strata"), tier, lines, cover)
+    alias_stratum(rng.fork("alias"), tier, lines, cover)
     return lines, cover
 
 
@@ -656,6 +660,317 @@ def strata(rng, tier, lines, cover):
 
 
 # ------------------------------------------------------------------------------------------------
+# ALIASING / OBJECT-IDENTITY stratum: `ses cmd | cmd | ...` lines (one self-contained session per line, see Drv/C05.lean).
+# The executor keeps buffers / Matrix / Vector objects in slots, so the SAME object can be both operands, two views of one
+# buffer can overlap, an operand can be mutated in place between two identical calls, and a slot can be re-filled right after
+# its previous contents were dropped (same size -> the allocator hands back the same address).  The model sees values only.
+class Ses:
+    def __init__(self):
+        self.c = []
+
+    def v(self, s, d):
+        self.c.append("v %d %s" % (s, ("%d %s" % (len(d), hs(d))) if d else "0"))
+
+    def M(self, s, r, c, d):
+        self.c.append(("M %d %d %d %s" % (s, r, c, hs(d))).rstrip())
+
+    def V(self, s, d):
+        self.c.append("V %d %s" % (s, ("%d %s" % (len(d), hs(d))) if d else "0"))
+
+    def p(self, kind, s, i, x):
+        self.c.append("%s %d %d %s" % (kind, s, i, hx(x)))
+
+    def add(self, fmt, *a):
+        self.c.append(fmt % a)
+
+    def line(self):
+        return "ses " + " | ".join(self.c)
+
+
+def sqmat(rng, n, kind):
+    if kind == "sym":
+        d = ints(rng, n * n)
+        for i in range(n):
+            for j in range(i):
+                d[i * n + j] = d[j * n + i]
+        return d
+    if kind == "real":
+        return reals(rng, n * n)
+    d = ints(rng, n * n)
+    if n >= 2 and all(d[i * n + j] == d[j * n + i] for i in range(n) for j in range(n)):
+        d[1] = d[n] + 1.0
+    return d
+
+
+FLAGS4 = [(0, 0), (1, 0), (0, 1), (1, 1)]
+
+
+def alias_stratum(rng, tier, lines, cover):
+    quick = tier != "thorough"
+    for k_ in ("alias_sessions", "alias_same_slice", "alias_same_object_dot", "alias_views", "alias_two_shapes",
+               "alias_mutation", "alias_realloc", "alias_distinct_control"):
+        cover[k_] = 0
+    sizes = list(range(1, 10)) + [15, 16, 17, 33] + [rng.randint(10, 40) for _ in range(2 if quick else 8)]
+    kinds = ["nonsym", "sym", "real"]
+    for n in sizes:
+        nn = n * n
+        for kind in kinds:
+            d = sqmat(rng, n, kind)
+            # --- A. one slice as both operands: matmul / matmul_blocked with all four flag pairs, xtx
+            S = Ses()
+            S.v(0, d)
+            S.v(1, d)          # identical values in a distinct buffer (control)
+            for (ta, tb) in FLAGS4:
+                S.add("mm %d %d %d %d 0 0 %d 0 0 %d", ta, tb, n, n, nn, nn)
+                for bs in sorted({rng.choice([1, 2, n, n + 1, max(1, n - 1), 2 * n, 7, 8]) for _ in range(1 if quick else 3)}):
+                    S.add("mb %d %d %d %d %d 0 0 %d 0 0 %d", ta, tb, n, n, bs, nn, nn)
+                cover["alias_same_slice"] += 2
+            S.add("mm 0 0 %d %d 0 0 %d 1 0 %d", n, n, nn, nn)
+            S.add("mm 1 1 %d %d 1 0 %d 0 0 %d", n, n, nn, nn)
+            cover["alias_distinct_control"] += 2
+            S.add("xtx %d 0 0 %d", n, nn)
+            S.add("tr %d 0 0 %d", n, nn)
+            lines.append(S.line())
+            # --- B. one Matrix / Vector object as both operands of every Dot method
+            S = Ses()
+            S.M(0, n, n, d)
+            vd = (ints if kind != "real" else reals)(rng, n)
+            S.V(1, vd)
+            for mi, meth in enumerate(METHS):
+                owns = [1, 3, 0, 2] if not quick else [(1, 3)[(n + mi) % 2], (3, 1)[(n + mi) % 2] if n <= 9 else 0]
+                for own in owns:
+                    S.add("dmm %s %d 0 0", meth, own)
+                    cover["alias_same_object_dot"] += 1 if own in (1, 3) else 0
+                S.add("dvv %s %d 1 1", meth, (1, 3)[mi % 2])
+                S.add("dmv %s %d 0 1", meth, (mi + n) % 4)
+                S.add("dvm %s %d 1 0", meth, (mi + n + 1) % 4)
+                cover["alias_same_object_dot"] += 1
+            S.M(2, 1, n, vd)
+            S.M(3, n, 1, vd)
+            for mi, meth in enumerate(METHS):
+                S.add("dmd %s %d 2", meth, (1, 3)[mi % 2])
+                S.add("dmd %s %d 3", meth, (3, 1)[mi % 2])
+                S.add("ddm %s %d 2", meth, (1, 3)[mi % 2])
+                S.add("ddm %s %d 3", meth, (3, 1)[mi % 2])
+                cover["alias_same_object_dot"] += 4
+            lines.append(S.line())
+            cover["alias_sessions"] += 2
+        # --- C. two views of one buffer: same length at a different offset (overlapping), prefix of the same start
+        d = sqmat(rng, n, "nonsym") + ints(rng, nn + 3)
+        S = Ses()
+        S.v(0, d)
+        for off in sorted({1, n, nn // 2, nn, nn + 3}):
+            for (ta, tb) in (FLAGS4 if not quick else [FLAGS4[(n + off) % 4], FLAGS4[(n + off + 1) % 4]]):
+                S.add("mm %d %d %d %d 0 0 %d 0 %d %d", ta, tb, n, n, nn, off, nn)
+                S.add("mb %d %d %d %d %d 0 %d %d 0 0 %d", ta, tb, n, n, rng.choice([1, n, n + 1]), off, nn, nn)
+                cover["alias_views"] += 2
+        S.add("xtx %d 0 1 %d", n, nn)
+        lines.append(S.line())
+        cover["alias_sessions"] += 1
+    # --- one buffer read with two shapes (r x c times c x r from the same slice), Gram products of a non-square slice,
+    #     same start with different lengths
+    for r in range(1, 7):
+        for c in range(1, 7):
+            if r == c and quick:
+                continue
+            d = ints(rng, r * c) if (r + c) % 3 else reals(rng, r * c)
+            S = Ses()
+            S.v(0, d)
+            rc = r * c
+            S.add("mm 0 0 %d %d 0 0 %d 0 0 %d", r, c, rc, rc)     # (r x c)(c x r)
+            S.add("mm 1 1 %d %d 0 0 %d 0 0 %d", r, c, rc, rc)     # (r x c)^T (c x r)^T = c x r . r x c
+            S.add("mm 1 0 %d %d 0 0 %d 0 0 %d", r, r, rc, rc)     # X^T X
+            S.add("mm 0 1 %d %d 0 0 %d 0 0 %d", r, r, rc, rc)     # X X^T
+            S.add("mm 0 0 %d %d 0 0 %d 0 0 %d", r, r, rc, rc)     # r x c . r x c: conformable only if r == c
+            S.add("mb 0 0 %d %d %d 0 0 %d 0 0 %d", r, c, rng.randint(1, 4), rc, rc)
+            S.add("mb 1 1 %d %d %d 0 0 %d 0 0 %d", r, c, rng.randint(1, 4), rc, rc)
+            S.add("xtx %d 0 0 %d", r, rc)
+            for k in range(1, r + 1):  # same start address, shorter second view: (r x c)(c x k) needs c*k elements
+                if c * k < rc:
+                    S.add("mm 0 0 %d %d 0 0 %d 0 0 %d", r, c, rc, c * k)
+                    break
+            lines.append(S.line())
+            cover["alias_two_shapes"] += 1
+            cover["alias_sessions"] += 1
+    # --- D. an operand mutated in place between two identical calls (slice level and objects)
+    for q in range(24 if quick else 120):
+        m, l, n = (rng.randint(1, 7) for _ in range(3))
+        ta, tb = FLAGS4[q % 4]
+        ra, ca, rb, cb = stored(m, l, n, ta, tb)
+        val = ints if q % 3 else reals
+        a, b = val(rng, ra * ca), val(rng, rb * cb)
+        S = Ses()
+        S.v(0, a)
+        S.v(1, b)
+        call = "mm %d %d %d %d 0 0 %d 1 0 %d" % (ta, tb, ra, rb, len(a), len(b))
+        callb = "mb %d %d %d %d %d 0 0 %d 1 0 %d" % (ta, tb, ra, rb, rng.randint(1, 5), len(a), len(b))
+        S.add(call)
+        S.p("p", 0, rng.randint(0, len(a) - 1), float(rng.randint(10, 99)))
+        S.add(call)
+        S.add(callb)
+        S.p("p", 1, rng.randint(0, len(b) - 1), float(rng.randint(10, 99)))
+        S.add(call)
+        S.add(callb)
+        S.add("xtx %d 0 0 %d", ra, len(a))
+        S.add("tr %d 0 0 %d", ra, len(a))
+        S.p("p", 0, rng.randint(0, len(a) - 1), float(rng.randint(100, 999)))
+        S.add("xtx %d 0 0 %d", ra, len(a))
+        S.add("tr %d 0 0 %d", ra, len(a))
+        S.add(call)
+        if ra * ra == len(a):   # the mutated slice as both operands
+            S.add("mm %d %d %d %d 0 0 %d 0 0 %d", ta, ta, ra, ra, len(a), len(a))
+            S.p("p", 0, rng.randint(0, len(a) - 1), -5.0)
+            S.add("mm %d %d %d %d 0 0 %d 0 0 %d", ta, ta, ra, ra, len(a), len(a))
+        lines.append(S.line())
+        # objects
+        meth, own = METHS[q % 4], (q // 4) % 4
+        S = Ses()
+        S.M(0, ra, ca, a)
+        S.M(1, rb, cb, b)
+        nv = ra if ta else ca
+        v = val(rng, nv)
+        S.V(2, v)
+        nw = cb if tb else rb
+        w = val(rng, nw)
+        S.V(3, w)
+        for call in ("dmm %s %d 0 1" % (meth, own), "dmv %s %d 0 2" % (meth, own), "dvm %s %d 3 1" % (meth, own),
+                     "dvv %s %d 2 2" % (meth, (1, 3)[q % 2])):
+            S.add(call)
+        S.p("pM", 0, rng.randint(0, len(a) - 1), 77.0)
+        S.p("pV", 2, rng.randint(0, nv - 1), -33.0)
+        for call in ("dmm %s %d 0 1" % (meth, own), "dmv %s %d 0 2" % (meth, own), "dvv %s %d 2 2" % (meth, (1, 3)[q % 2])):
+            S.add(call)
+        S.p("pM", 1, rng.randint(0, len(b) - 1), 55.0)
+        S.p("pV", 3, rng.randint(0, nw - 1), 11.0)
+        for call in ("dmm %s %d 0 1" % (meth, own), "dvm %s %d 3 1" % (meth, own)):
+            S.add(call)
+        lines.append(S.line())
+        cover["alias_mutation"] += 2
+        cover["alias_sessions"] += 2
+    # --- E. a slot re-filled right after its contents were dropped (same size: the address is reused), also with a
+    #     different shape of the same length
+    for q in range(24 if quick else 120):
+        m, l, n = (rng.randint(1, 7) for _ in range(3))
+        ta, tb = FLAGS4[q % 4]
+        ra, ca, rb, cb = stored(m, l, n, ta, tb)
+        val = ints if q % 3 else reals
+        S = Ses()
+        S.v(0, val(rng, ra * ca))
+        S.v(1, val(rng, rb * cb))
+        call = "mm %d %d %d %d 0 0 %d 1 0 %d" % (ta, tb, ra, rb, ra * ca, rb * cb)
+        S.add(call)
+        S.v(0, val(rng, ra * ca))
+        S.add(call)
+        S.add("xtx %d 0 0 %d", ra, ra * ca)
+        S.add("d 0")
+        S.v(0, val(rng, ra * ca))
+        S.add(call)
+        S.add("xtx %d 0 0 %d", ra, ra * ca)
+        S.v(1, val(rng, rb * cb))
+        S.add(call)
+        S.add("mb %d %d %d %d %d 0 0 %d 1 0 %d", ta, tb, ra, rb, rng.randint(1, 5), ra * ca, rb * cb)
+        # same length, transposed shape: A^T A with rows = ra, then a new buffer read with rows = ca
+        S.v(0, val(rng, ra * ca))
+        S.add("mm 1 0 %d %d 0 0 %d 0 0 %d", ra, ra, ra * ca, ra * ca)
+        S.v(0, val(rng, ra * ca))
+        S.add("mm 1 0 %d %d 0 0 %d 0 0 %d", ca, ca, ra * ca, ra * ca)
+        S.add("xtx %d 0 0 %d", ca, ra * ca)
+        S.add("tr %d 0 0 %d", ca, ra * ca)
+        lines.append(S.line())
+        meth, own = METHS[q % 4], (q // 4) % 4
+        S = Ses()
+        S.M(0, ra, ca, val(rng, ra * ca))
+        S.M(1, rb, cb, val(rng, rb * cb))
+        S.add("dmm %s %d 0 1", meth, own)
+        S.M(0, ra, ca, val(rng, ra * ca))
+        S.add("dmm %s %d 0 1", meth, own)
+        S.add("dM 0")
+        S.M(0, ra, ca, val(rng, ra * ca))
+        S.add("dmm %s %d 0 1", meth, own)
+        S.M(1, rb, cb, val(rng, rb * cb))
+        S.add("dmm %s %d 0 1", meth, own)
+        S.M(0, ca, ra, val(rng, ra * ca))     # same size, other orientation: the method with the other left flag fits
+        other = {"dot": "t_dot", "t_dot": "dot", "dot_t": "t_dot_t", "t_dot_t": "dot_t"}[meth]
+        S.add("dmm %s %d 0 1", other, own)
+        S.add("dmm %s %d 0 1", meth, own)
+        nv = rng.randint(1, 12)
+        S.V(2, val(rng, nv))
+        S.add("dvv dot 1 2 2")
+        S.V(2, val(rng, nv))
+        S.add("dvv t_dot 3 2 2")
+        lines.append(S.line())
+        cover["alias_realloc"] += 2
+        cover["alias_sessions"] += 2
+
+
+def expand_session(line, reply):
+    """-> list of (flat request line | None, flat reply, command text): the equivalent stateless requests with the data the
+    slots hold at that moment; None for state commands (their reply must be `ok`)."""
+    cmds = [c.split() for c in line[4:].split(" | ")]
+    st, toks = parse_reply(reply)
+    reps = [r.strip() for r in " ".join(toks).split("|")] if st == "ok" else [None] * len(cmds)
+    if len(reps) != len(cmds):
+        reps = [None] * len(cmds)
+    bufs, mats, vecs = {}, {}, {}
+    out = []
+    for c, r in zip(cmds, reps):
+        fr = None if r is None else ("! panic" if r.startswith("panic") else ("=" + r[2:] if r.startswith("ok") else "? " + r))
+        op = c[0]
+        flat = None
+        F = lambda xs: [h2f(x) for x in xs]
+        if op == "v":
+            bufs[int(c[1])] = F(c[3:])
+        elif op == "V":
+            vecs[int(c[1])] = F(c[3:])
+        elif op == "M":
+            mats[int(c[1])] = [int(c[2]), int(c[3]), F(c[4:])]
+        elif op == "p":
+            bufs[int(c[1])][int(c[2])] = h2f(c[3])
+        elif op == "pV":
+            vecs[int(c[1])][int(c[2])] = h2f(c[3])
+        elif op == "pM":
+            mats[int(c[1])][2][int(c[2])] = h2f(c[3])
+        elif op == "d":
+            bufs.pop(int(c[1]), None)
+        elif op == "dV":
+            vecs.pop(int(c[1]), None)
+        elif op == "dM":
+            mats.pop(int(c[1]), None)
+        elif op in ("mm", "mb"):
+            k = 6 if op == "mb" else 5
+            sa, oa, la, sb, ob, lb = map(int, c[k:k + 6])
+            a, b = bufs[sa][oa:oa + la], bufs[sb][ob:ob + lb]
+            if op == "mm":
+                flat = L_mm(int(c[1]), int(c[2]), int(c[3]), int(c[4]), a, b)
+            else:
+                flat = L_mb(int(c[1]), int(c[2]), int(c[3]), int(c[4]), int(c[5]), a, b)
+        elif op in ("xtx", "tr"):
+            k_, s_, o_, l_ = map(int, c[1:5])
+            x = bufs[s_][o_:o_ + l_]
+            flat = L_xtx(k_, x) if op == "xtx" else L_tr(k_, x)
+        elif op == "dmm":
+            A, B = mats[int(c[3])], mats[int(c[4])]
+            flat = L_d("dmm", c[1], int(c[2]), (A[0], A[1], B[0], B[1]), A[2], B[2])
+        elif op == "dmv":
+            A, v = mats[int(c[3])], vecs[int(c[4])]
+            flat = L_d("dmv", c[1], int(c[2]), (A[0], A[1], len(v)), A[2], v)
+        elif op == "dvm":
+            v, B = vecs[int(c[3])], mats[int(c[4])]
+            flat = L_d("dvm", c[1], int(c[2]), (len(v), B[0], B[1]), v, B[2])
+        elif op == "dvv":
+            x, y = vecs[int(c[3])], vecs[int(c[4])]
+            flat = L_d("dvv", c[1], int(c[2]), (len(x), len(y)), x, y)
+        elif op == "dmd":
+            A = mats[int(c[3])]
+            flat = L_d("dmv", c[1], int(c[2]), (A[0], A[1], len(A[2])), A[2], A[2])
+        elif op == "ddm":
+            A = mats[int(c[3])]
+            flat = L_d("dvm", c[1], int(c[2]), (len(A[2]), A[0], A[1]), A[2], A[2])
+        out.append((flat, fr, " ".join(c[:12])))
+    return out
+
+
+# ------------------------------------------------------------------------------------------------
 # oracle: the definition, evaluated independently (naive loops, exact integer / dyadic arithmetic)
 import math
 
@@ -843,7 +1158,7 @@ def parse_mm(t, blocked):
     return ta, tb, ra, rb, bs, a, b
 
 
-def oracle(lines, impl):
+def flat_oracle(lines, impl):
     fails = []
     last_mm = None   # (request suffix, reply) of the most recent `mm` line, to compare blocked == plain
     bases = {}       # op -> [header, a, b, reply tokens]: most recent unscaled request (power-of-two equivariance)
@@ -864,7 +1179,7 @@ def oracle(lines, impl):
             ta, tb, ra, rb, bs, a, b = parse_mm(t, op == "mb")
             key = "%s:%d%d:%dx?:%dx?" % (op, ta, tb, ra, rb)
             if op == "mm":
-                last_mm = ((ta, tb, ra, rb, t[5:]), rep.strip())
+                last_mm = None       # set below, once this reply has passed its own check
             if ra == 0 or rb == 0 or (op == "mb" and bs == 0 and False):
                 continue  # zero-row operands are outside the property's quantifier (tie only)
             if len(a) % ra or len(b) % rb:
@@ -894,6 +1209,7 @@ def oracle(lines, impl):
             opBt = rows_of(b, rb, cb, not tb)
             f = check_product(i, key, got, opA, opBt, m, l, n, "matmul%s" % ("_blocked(bsize=%d)" % bs if bs else ""))
             if f is None and op == "mm":
+                last_mm = ((ta, tb, ra, rb, t[5:]), rep.strip())
                 f = equiv("mm", (ta, tb, ra, rb, len(a), len(b)), a, b, toks, 1, key)
             if f is None and op == "mb" and last_mm and last_mm[0] == (ta, tb, ra, rb, t[6:]):
                 if last_mm[1] != rep.strip():
@@ -994,11 +1310,67 @@ def oracle(lines, impl):
     return fails
 
 
+def oracle(lines, impl):
+    """Sessions are expanded into the equivalent stateless requests (with the data the slots hold at that moment) and
+    every product is decided by the same definition-based oracle as the stateless requests."""
+    flat_l, flat_r, origin = [], [], []
+    fails = []
+    for i, (line, rep) in enumerate(zip(lines, impl)):
+        if not line.startswith("ses "):
+            flat_l.append(line)
+            flat_r.append(rep)
+            origin.append((i, None))
+            continue
+        st, _ = parse_reply(rep)
+        if st == "skip":
+            continue
+        if st != "ok":
+            fails.append(Failure(i, "ses:reply", "session line answered %r" % rep[:80]))
+            continue
+        for k, (fl, fr, txt) in enumerate(expand_session(line, rep)):
+            if fr is None or fr.startswith("?"):
+                fails.append(Failure(i, "ses:malformed", "session command #%d (%s): malformed reply" % (k, txt)))
+                break
+            if fl is None:
+                if fr.strip() != "=":
+                    fails.append(Failure(i, "ses:state:" + txt.split()[0], "state command #%d (%s) answered %r" % (k, txt, fr[:60])))
+                continue
+            flat_l.append(fl)
+            flat_r.append(fr)
+            origin.append((i, "command #%d `%s`" % (k, txt)))
+    for f in flat_oracle(flat_l, flat_r):
+        i, where = origin[f.idx]
+        if where is not None:
+            f = Failure(i, "ses:" + f.key, "session %s: %s" % (where, f.msg), f.expected)
+        else:
+            f.idx = i
+        fails.append(f)
+    fails.sort(key=lambda f: f.idx)
+    return fails
+
+
+def ses_skeleton(line):
+    out = []
+    for c in line[4:].split(" | "):
+        t = c.split()
+        if t[0] in ("v", "V"):
+            out.append(" ".join(t[:3]))
+        elif t[0] == "M":
+            out.append(" ".join(t[:4]))
+        elif t[0] in ("p", "pM", "pV"):
+            out.append(" ".join(t[:3]))
+        else:
+            out.append(c)
+    return "ses " + "|".join(out)
+
+
 def nontrivial(line, reply):
     t = line.split()
     op = t[0]
     if reply.startswith("#"):
         return None
+    if op == "ses":
+        return ses_skeleton(line)
     if op == "mm":
         return " ".join(t[:7])
     if op == "mb":
@@ -1016,3 +1388,8 @@ PROOF_MODULES = PROOF_MODULES + ['Compute.Lemmas.MatmulRounding', 'Compute.Props
 REQUIRED_THEOREMS = REQUIRED_THEOREMS + ['Cv.Rounding3.matmul_error', 'Cv.Rounding3.matmul_error_succ', 'Cv.Rounding3.matmulBlocked_error', 'Cv.Rounding3.xtx_error', 'Cv.Rounding3.matmul_error_infnorm', 'Cv.Rounding3.dotMM_error', 'Cv.Rounding3.f64_matmul_note']
 NOT_PROVED = [x for x in NOT_PROVED if not any(k in str(x) for k in ('f64 rounding',))]
 NOT_PROVED = NOT_PROVED + ['f64 rounding of products with real entries is bounded by theorem in the standard model (Props/Rounding3: |C - op(A)op(B)| <= gamma_l |op(A)||op(B)| entrywise for all four flag pairs, the blocked variant, xtx and the Dot methods); the trusted link is that IEEE binary64 obeys fl(a op b) = (a op b)(1+d), |d| <= 2^-53']
+
+# --- source tie, in-place mutation / nested loops / decision trees (tools/rs2lean.py mut=True: regenerated from /repo/src into
+# Generated/SrcC05Mut.lean and proved equal to the hand model in Props/SrcTieC05Mut.lean)
+from . import srctie
+srctie.wire_mut(globals(), 'C05')
